@@ -12,7 +12,7 @@ def main():
     assert paranoid_pb2.SeverityType.SEVERITY_CRITICAL == 4
   except Exception as e:  # pylint: disable=broad-except
     print('setup: substrate not available: %r' % (e,))
-    return 0  # checks themselves report inconclusive; setup never blocks
+    return 1
   print('setup ok')
   return 0
 
